@@ -92,9 +92,22 @@ def random_cases(rng, n):
         yield s
 
 
+def epoch_family():
+    """one body under epochs that CPython's int hash cannot tell apart (multiples of sys.hash_info.modulus apart), under
+    very large epochs and under the neighbours of each: a print-back that goes through a table keyed by hash, by a
+    machine word or by a float would mix them up.  Emitted in sequence, in one process."""
+    import sys
+    m = sys.hash_info.modulus
+    for body in ('1.0', '1.0-1', '2a-0', '0'):
+        for e in (0, 1, m - 1, m, m + 1, 2 * m, 2 * m + 1, 2 ** 63, 2 ** 64, 2 ** 64 + 1, 10 ** 20, 2 ** 53 + 1):
+            yield '%d:%s' % (e, body)
+        yield body
+
+
 def streams(tier, rng):
     import props.c03 as c03
     yield {'name': 'exhaustive-family', 'op': 'C04', 'cases': family(), 'exhaustive': True}
+    yield {'name': 'epoch-family', 'op': 'C04', 'cases': epoch_family(), 'exhaustive': True}
     L = 4 if tier == 'quick' else 5
     yield {'name': 'exhaustive-len<=%d' % L, 'op': 'C04', 'cases': genlib.strings_upto(c03.ALPHABET, L), 'exhaustive': True}
     yield {'name': 'random', 'op': 'C04', 'cases': random_cases(rng, 20000 if tier == 'quick' else 200000)}
